@@ -773,8 +773,9 @@ class Bin(Factory, Container):
             if np.isclose(high, self.low + self.bin_width() * maxBin):
                 maxBin -= 1
             high = self.low + self.bin_width() * (maxBin + 1)
-        # new low and high values reset, so redo num_bins
-        num_bins = self.num_bins(low + np.finfo(float).eps, high - np.finfo(float).eps)
+        # low and high are bin edges now: count the bins between them as num_bins() does (asking it again
+        # with values a hair inside those edges is at the mercy of rounding in bin())
+        num_bins = int(np.round((high - low) / self.bin_width()))
         return np.linspace(low, high, num_bins + 1)
 
     def bin_centers(self, low=None, high=None):
